@@ -4,6 +4,7 @@ import progcheck
 from e2e import exec_expr, node_truth, try_, meta_mismatch, concat_parts, _short
 import c06
 import c07_sources
+import c07_concat
 
 
 def dtype_mix(rt):
@@ -89,7 +90,10 @@ def run(run):
                 "column selections (single label / ordered pairs / triples / header permutations) absorbed by 22 source variants (read_csv/table/fwf with 1-3 files, blocksize, sep, names, usecols; "
                 "both parquet readers; from_pandas/map/dict/delayed) over 6 tables with unsorted headers (dtype mixes, missing values, all-null first partition, odd / integer / mixed labels) below 26 consumers: "
                 "declared schema (_meta and the .columns/.name/.dtypes accessors) vs compute(), vs each partition of the unoptimized / optimized / fused plan, vs the optimized plans' declaration, and node by node; "
-                "non-trivial = collection with >= 2 partitions (source selections: >= 2 selected labels)")
+                "concatenations: 24 input shapes (identical / reordered / overlapping / nested / disjoint column sets, shared columns of different dtypes, categoricals, Series, Series with frames) "
+                "x 6 row layouts (monotonic / overlapping / unknown / partly unknown divisions, named index) x 1-3 partitions per input x join inner/outer x interleave_partitions x ignore_order x axis 0/1 "
+                "x missing values x input histories (empty leading partitions, elementwise) below 25 consumers, same oracles as the source selections; "
+                "non-trivial = collection with >= 2 partitions (source selections: >= 2 selected labels; concatenations: > 2 input partitions)")
     run.proofs("PropC07.v")
     n = 0
     colls = [(t, c) for t, c in dtype_mix(rt)] + [(t, c) for t, c, _ in c06.collections(rt)]
@@ -129,6 +133,8 @@ def run(run):
     run.section("collections", checked=n)
     # column selections absorbed by every kind of data source (readers with headers that are not in sorted order)
     c07_sources.run_family(run)
+    # concatenations: the declaration comes from the metas of the inputs, the data from five lowered forms that receive the options separately
+    c07_concat.run_family(run)
     quick = run.tier == "quick"
     progcheck.run_programs(run, {"C07"}, 120 if quick else 3000, profile="l1", own={"C07"}, with_steps=False)
     progcheck.run_programs(run, {"C07"}, 80 if quick else 2000, profile="l2", own={"C07"}, with_steps=False)
@@ -140,8 +146,14 @@ def replay(path):
     os.makedirs(common.BUILD, exist_ok=True)
     d = json.load(open(path))
     case = d.get("case") or {}
+    if case.get("kind") == "concat":
+        found = c07_concat.replay_case(case)
+        for f in found:
+            print("VIOLATION property=C07 replay=%s :: %s" % (path, f))
+        print("C07 replay %s: %d finding(s)" % (path, len(found)))
+        return 1 if found else 0
     if case.get("kind") != "source-selection":
-        print("C07 replay: only cases of kind source-selection can be replayed individually (this one: %r); rerun ./check C07 with seed %s" % (case.get("kind"), d.get("seed")))
+        print("C07 replay: only cases of kind source-selection / concat can be replayed individually (this one: %r); rerun ./check C07 with seed %s" % (case.get("kind"), d.get("seed")))
         return 2
     found = c07_sources.replay_case(case)
     for f in found:
